@@ -45,10 +45,17 @@ func (r *Request) readResp(read io.Reader) (protocol.Message, error) {
 	if respLen < 0 {
 		return nil, protocol.Errorf("invalid SASL authentication response length: %d", respLen)
 	}
-	data := make([]byte, respLen)
-
-	if _, err := io.ReadFull(read, data[:]); err != nil {
+	// The length was read from the network: read the response as its bytes
+	// arrive instead of allocating a buffer of the announced size up front.
+	data, err := io.ReadAll(io.LimitReader(read, int64(respLen)))
+	if err != nil {
 		return nil, err
+	}
+	if len(data) < int(respLen) {
+		if len(data) == 0 {
+			return nil, io.EOF
+		}
+		return nil, io.ErrUnexpectedEOF
 	}
 	return &Response{
 		AuthBytes: data,
